@@ -22,6 +22,7 @@ import (
 	"sync"
 
 	sqlite3 "github.com/mattn/go-sqlite3"
+	"gorm.io/gorm"
 )
 
 // MaxTasks bounds the number of per-task buffers.
@@ -80,6 +81,8 @@ func ClassError(class string) error {
 		return sql.ErrTxDone
 	case "eof":
 		return io.ErrUnexpectedEOF
+	case "notfound": // hook errors only: from the driver it would simply mean "no row"
+		return gorm.ErrRecordNotFound
 	}
 	return nil
 }
